@@ -24,13 +24,16 @@ LOOP_INVS = ['TypeOK', 'IterateShape', 'ReturnRule', 'FixedCount', 'FirstHit', '
              'RaiseOnlyAtLimit']
 LOOP_PROPS = ['IterRel', 'Terminates']
 DUMMY = {'Methods': '{"sd"}', 'MaxItersSet': '{1}', 'Steps': '{12}', 'EnergySet': '{FALSE}', 'Dev': '{}'}
-_RE_BEH = re.compile(r'<<"BEHAVIOUR", "(.*)">>')
+# whitespace tolerant: TLC breaks long tuples over several lines; the JSON payload is one TLA+ string with \" escapes
+_RE_BEH = re.compile(r'<<\s*"BEHAVIOUR",\s*"((?:[^"\\]|\\.)*)"\s*>>')
 
 
 def parse_behaviours(out):
     res = []
+    if len(_RE_BEH.findall(out)) != out.count('"BEHAVIOUR"'):
+        raise MachineryError('could not parse every BEHAVIOUR line exported by TLC (%d of %d)' % (len(_RE_BEH.findall(out)), out.count('"BEHAVIOUR"')))
     for m in _RE_BEH.finditer(out):
-        res.append(json.loads(m.group(1).replace('\\"', '"')))
+        res.append(json.loads(m.group(1).replace('\\"', '"').replace('\\\\', '\\')))
     return res
 
 
